@@ -535,6 +535,29 @@ CONTRACTS = [
           "to_remove": "all(count(to_remove, k) == (1 if k in E(old(self)) and node in k and count(_done0, ID(old(self), k)) >= 1 else 0) for k in Tuple)",
           "NM_kept": "all(NM(self, n) == NM(old(self), n) for n in V(old(self)))",
           "weighted": "weighted(self) == weighted(old(self))"}}),
+    # ------------------------------------------------------------------ batched insertion = fold of add_edge over the list
+    C("add_edges", params={"edge_list": "Seq[Tup]", "weights": "Opt[Seq[Real]]", "metadata": "Opt[Seq[Meta]]"},
+      requires={"wf": "wf(self)",
+                "edges_ok": "all(distinct(edge_list[m]) and len(edge_list[m]) >= 1 for m in Int if 0 <= m and m < len(edge_list))",
+                "weights_len": "implies(weights is not None and weighted(self), len(weights) == len(edge_list))",
+                "metadata_len": "implies(metadata is not None, len(metadata) >= len(edge_list))"},
+      # the only rejection (repeated hyperedges in a weighted batch) happens before anything is modified
+      may_raise={"ValueError": "weighted(self) and weights is not None"},
+      modifies=["_adj", "_node_metadata", "_edge_list", "_reverse_edge_list", "_weights", "_edge_metadata", "_next_edge_id"],
+      ensures={"wf": "wf(self)",
+               "V": "all((n in V(self)) == (n in V(old(self)) or any(0 <= m and m < len(edge_list) and n in edge_list[m] for m in Int)) for n in Node)",
+               "E": "all((k in E(self)) == (k in E(old(self)) or any(0 <= m and m < len(edge_list) and canon(edge_list[m]) == k for m in Int)) for k in Tuple)",
+               # weighted: every insertion adds its weight (1 without a weight list), also for hyperedges repeated in the list
+               "W": "implies(weighted(self), all(W(self, k) == (W(old(self), k) if k in E(old(self)) else 0) + psum(edge_list, weights, len(edge_list), k) for k in E(self)))",
+               **NODE_MD_KEPT, **SAME_WEIGHTED},
+      invariants={0: {
+          "i": "i == _j0", "j": "0 <= _j0 and _j0 <= len(edge_list)", "wf": "wf(self)",
+          "V": "all((n in V(self)) == (n in V(old(self)) or any(0 <= m and m < _j0 and n in edge_list[m] for m in Int)) for n in Node)",
+          "E": "all((k in E(self)) == (k in E(old(self)) or any(0 <= m and m < _j0 and canon(edge_list[m]) == k for m in Int)) for k in Tuple)",
+          "W": "implies(weighted(self), all(W(self, k) == (W(old(self), k) if k in E(old(self)) else 0) + psum(edge_list, weights, _j0, k) for k in E(self)))",
+          "W0": "all(psum(edge_list, weights, _j0, k) == 0 for k in Tuple if k not in E(self))",
+          "NM_kept": "all(NM(self, n) == NM(old(self), n) for n in V(old(self)))",
+          "weighted": "weighted(self) == weighted(old(self))", "HM": "HM(self) == HM(old(self))"}}),
 ]
 
 
